@@ -221,6 +221,33 @@ func runConcurrent(c *drv.Ctx) error {
 	return w.Flush()
 }
 
+func runAdvPause(c *drv.Ctx) error {
+	w := cw.New(c.Out, pauseHeader, "apcase", []cw.Check{{Name: "MISMATCH", Fn: "ap_ok"}, {Name: "MON01", Fn: "ap_mon"}})
+	w.ShardSize = 100
+	w.Stats.Rule = "a real GraphSync requestor (lacking the root) against a scripted peer: first answer = the root alone; the requestor pauses after that block (incoming-block hook 2/3, API Pause issued before the answer 1/3) and the driver waits until the request's state is Paused; then 1-3 responses for the request carry Present links with valid blocks the traversal did not ask for (blocks outside the DAG, DAG blocks the selector does not reach, blocks not reached yet); a barrier response tells when they were processed and the store's commits are read; then Unpause (3/4; the second request is answered with the honest stream, mutated in half of the cases, terminal status last) or cancel (1/4); " +
+		"monitor: every commit is a block of the requested DAG under its own CID, at most the root is committed when the paused phase is over, delivered nodes are a subsequence of the full traversal; correspondence: the model with the pause (messages arriving while offline are dropped). distinct = distinct terms"
+	run := func(path, kind string) error {
+		var ac advPauseCase
+		if err := drv.ReplayCase(path, &ac); err != nil {
+			return err
+		}
+		return runAdvPauseCase(w, ac, kind)
+	}
+	if c.Replay != "" {
+		if err := run(c.Replay, "replay"); err != nil {
+			return err
+		}
+		return w.Flush()
+	}
+	n := c.Count(120, 2500)
+	for i := 0; i < n; i++ {
+		if err := runAdvPauseCase(w, advPauseCase{Seed: c.R.U64()}, "random"); err != nil {
+			return err
+		}
+	}
+	return w.Flush()
+}
+
 func runTraffic(c *drv.Ctx) error {
 	w := cw.New(c.Out, trafficHeader, "tcase", []cw.Check{{Name: "MISMATCH", Fn: "tcase_ok"}, {Name: "MON24", Fn: "tcase_mon"}})
 	w.ShardSize = 120
@@ -269,6 +296,8 @@ func main() {
 		drv.Main("rpause", runRPause)
 	case "concurrent":
 		drv.Main("concurrent", runConcurrent)
+	case "advpause":
+		drv.Main("advpause", runAdvPause)
 	default:
 		drv.Main("loader", runLoader)
 	}
